@@ -101,6 +101,29 @@ class DensityInterp(TermInterp):
         super().stmt(st)
 
     def expr(self, e):
+        # products of the transformation with the density matrix (the transformation folded into the density matrix)
+        if isinstance(e, ast.Attribute) and e.attr == "T":
+            try:
+                m_ = Mat.of(self.expr(e.value))
+            except AnalysisError:
+                m_ = None
+            if m_ is not None:
+                return m_.t()
+        pair = None
+        if isinstance(e, ast.Call) and isinstance(e.func, ast.Attribute) and e.func.attr == "dot" and len(e.args) == 1 and not e.keywords \
+                and not (dotted(e.func) or "").startswith(("np.", "numpy.")):
+            pair = (e.func.value, e.args[0])
+        elif isinstance(e, ast.Call) and dotted(e.func) in ("np.dot", "numpy.dot", "np.matmul", "numpy.matmul") and len(e.args) == 2 and not e.keywords:
+            pair = (e.args[0], e.args[1])
+        elif isinstance(e, ast.BinOp) and isinstance(e.op, ast.MatMult):
+            pair = (e.left, e.right)
+        if pair is not None:
+            try:
+                ma, mb = Mat.of(self.expr(pair[0])), Mat.of(self.expr(pair[1]))
+            except AnalysisError:
+                ma = mb = None
+            if ma is not None and mb is not None:
+                return Mat(ma.chain + mb.chain)
         if isinstance(e, ast.Call) and dotted(e.func) in ("np.array_equal", "numpy.array_equal") and len(e.args) == 2:
             a_, b_ = self.expr(e.args[0]), self.expr(e.args[1])
             if isinstance(a_, (tuple, list)) and isinstance(b_, (tuple, list)):
@@ -215,6 +238,29 @@ class DensityInterp(TermInterp):
         super().if_stmt(st)
 
 
+class Mat:
+    """A product of the caller's matrices: chain of 'T' (transform), 'Tt' (its transpose) and 'P' (the symmetric density matrix)."""
+
+    def __init__(self, chain):
+        self.chain = tuple(chain)
+
+    def __repr__(self):
+        return " . ".join({"T": "transform", "Tt": "transform^T", "P": "one_density_matrix"}[x] for x in self.chain)
+
+    def t(self):
+        return Mat([{"T": "Tt", "Tt": "T", "P": "P"}[x] for x in reversed(self.chain)])
+
+    @staticmethod
+    def of(v):
+        if isinstance(v, Mat):
+            return v
+        if v == "transform":
+            return Mat(["T"])
+        if v == "one_density_matrix":
+            return Mat(["P"])
+        return None
+
+
 class Mismatch(Exception):
     def __init__(self, msg, node):
         self.msg, self.node = msg, node
@@ -251,6 +297,17 @@ def make_handler(f, ctx, symmetric=True):
         for k in kws:
             if k not in want_kw:
                 problems.append(f"unexpected keyword {k}")
+        dm = ctx.interp_env.get("one_density_matrix") if ctx.interp_env is not None and "one_density_matrix" in want_pos else None
+        if isinstance(dm, Mat):
+            # sum_ij P_ij (T chi)_i (T chi)_j = chi^T (T^T P T) chi: the transformation folded into the density matrix, evaluated with the
+            # untransformed contractions, is the same quantity - with exactly this product and no transformation passed on
+            folded_ok = dm.chain == ("Tt", "P", "T") and kws.get("transform") in (None, "None")
+            if folded_ok:
+                problems[:] = [p_ for p_ in problems if not p_.startswith("`transform` is not forwarded")]
+            else:
+                problems.append(f"the density matrix handed on is {dm}" + (" together with the transformation" if kws.get("transform") not in (None, "None") else "")
+                                + ": folding the transformation into the density matrix means transform^T . one_density_matrix . transform "
+                                  "(shape K_cont x K_cont) evaluated without a transformation")
         ctx.sites[id(e)] = (e, problems, short, f)
 
     def handler(interp, e, d):
